@@ -36,7 +36,7 @@ func verifyTuple(rng *gen.Rng, i int) sigTuple {
 		t := honestTuple(rng, false)
 		lo, lv := oracle.LowS(t.S, t.V)
 		t.S = new(big.Int).Sub(bigN, lo) // the high representative
-		t.V = lv ^ 1                      // negating s flips the parity bit of the id that recovers Q
+		t.V = lv ^ 1                     // negating s flips the parity bit of the id that recovers Q
 		t.Class = "high-s," + t.Class
 		return t
 	case 3:
